@@ -63,6 +63,8 @@ impl Callbacks for Cb {
         mirdump::dump_impls(tcx, &mut out);
         out.push_str(",\"fns\":");
         mirdump::dump_fn_items(tcx, &mut out);
+        out.push_str(",\"exports\":");
+        mirdump::dump_exports(tcx, &mut out);
         out.push_str(",\"validators\":");
         hirtab::dump_validators(tcx, &mut out);
         out.push_str(",\"instances\":");
